@@ -150,6 +150,11 @@ func main() {
 			}
 			emit(c)
 		}
+		if chk == "chk05" && *level == "" && *maxprocs == 0 && o.Shard%4 == 1 {
+			// LARGE-BATCH family (C05 only): one case in every fourth shard, from its own RNG
+			// stream so that the cases above stay what they were
+			emit(enginex.GenBig(hx.NewRand(o.Seed ^ 0xb16ba7c4).Fork(uint64(o.Shard))))
+		}
 	}
 	if err := w.Close(chk); err != nil {
 		fmt.Fprintln(os.Stderr, err)
